@@ -124,6 +124,29 @@ class World:
         return new
 
 
+    # The state's sampler is its public sample() method (a user's state class may override it): chains advanced behind
+    # its back - through the networks' own Gibbs routines - are not draws of that sampler.
+    @property
+    def rbm_am(self):
+        return _Bypass(self)
+
+    rbm_ph = rbm_am
+
+
+class _Bypass:
+    def __init__(self, w):
+        self.w = w
+
+    def gibbs_steps(self, k, initial_state, overwrite=False, **kw):
+        w = self.w
+        w.vc.check("draw/every draw goes through the state's public sample()", False, "the chains were advanced by rbm.gibbs_steps directly")
+        new = Chain(w.nc, "bypass")
+        w.current = new
+        w.last_drawn = new
+        w.draws = w.draws + 1
+        return new
+
+
 class Acc:
     """Accumulator token: (mean, var, len) objects that are, by _update_statistics' contract, the one-pass
     statistics of the chunks merged so far."""
